@@ -128,6 +128,7 @@ def verify_function(contract: Contract, specs=None, variant=None) -> FunctionRep
     rep.lines = (fn.lineno, fn.end_lineno)
     ex = Exec(contract, specs)
     ex.mod, ex.cls = mod, cls
+    ex.local_names = {n.id for n in ast.walk(fn) if isinstance(n, ast.Name) and isinstance(n.ctx, ast.Store)}
     ex.loop_ids = {}
     k = 0
     for n in ast.walk(fn):
@@ -265,6 +266,10 @@ def verify_function(contract: Contract, specs=None, variant=None) -> FunctionRep
         rep.error = "engine recursion limit"
     rep.assumptions = sorted(set(ex.assumptions) | set(rep.assumptions))
     rep.opaque = sorted(ex.opaque_callees)
+    if ex.abstracted:
+        rep.assumptions = rep.assumptions + [f"{contract.qual}: {len(ex.abstracted)} expression(s)/statement(s) outside the subset abstracted "
+                                             f"as unknown may-raise values (none mentions a tracked name): " +
+                                             "; ".join(f"L{a}: {b}" for a, b, _ in ex.abstracted[:8])]
     return rep
 
 
